@@ -71,6 +71,11 @@ type Outcome struct {
 	TmpLeft  []string
 	Yields   int64
 	Wall     time.Duration
+	// the peer process of a two-process scenario
+	PeerRan    string // "at-gate" | "after-exit" | ""
+	PeerExit   int
+	PeerStdout []byte
+	PeerStderr []byte
 }
 
 // RunOpts are execution details that must NOT influence the outcome
@@ -237,6 +242,14 @@ func (w *World) Run(sc *Scenario, o RunOpts) *Outcome {
 	if plan.RlimitAS == 0 {
 		plan.RlimitAS = defaultRlimitAS
 	}
+	gatePath := ""
+	if sc.Peer != nil {
+		gatePath = filepath.Join(root, "gate")
+		if err := syscall.Mkfifo(gatePath, 0600); err != nil {
+			harnessPanic("mkfifo %v", err)
+		}
+		plan.Steps = append(append([]StepFault{}, plan.Steps...), StepFault{Site: sc.Peer.GateSite, Occ: sc.Peer.GateOcc, Action: "gate", Gate: gatePath})
+	}
 	planPath := filepath.Join(root, "plan.json")
 	pdata, _ := json.Marshal(&plan)
 	if err := os.WriteFile(planPath, pdata, 0600); err != nil {
@@ -326,6 +339,59 @@ func (w *World) Run(sc *Scenario, o RunOpts) *Outcome {
 	done := make(chan error, 1)
 	go func() { done <- cmd.Wait() }()
 	out := &Outcome{SmallDisk: smallDisk}
+	runPeer := func(when string) {
+		pc := exec.Command(w.YQ, sc.Peer.Argv...)
+		pc.Dir = work
+		var pso, pse bytes.Buffer
+		pc.Stdout, pc.Stderr = &pso, &pse
+		pc.Env = append([]string{}, env...)
+		for i, e := range pc.Env {
+			if strings.HasPrefix(e, "YQ_VERIF_PLAN=") {
+				pc.Env[i] = "YQ_VERIF_PLAN=" // the peer runs free of faults and gates
+			}
+		}
+		pc.SysProcAttr = &syscall.SysProcAttr{Setpgid: true}
+		perr := pc.Start()
+		if perr != nil {
+			harnessPanic("start peer %v", perr)
+		}
+		pdone := make(chan error, 1)
+		go func() { pdone <- pc.Wait() }()
+		select {
+		case perr = <-pdone:
+		case <-time.After(20 * time.Second):
+			_ = syscall.Kill(-pc.Process.Pid, syscall.SIGKILL)
+			<-pdone
+			harnessPanic("peer process did not end")
+		}
+		out.PeerRan = when
+		out.PeerStdout, out.PeerStderr = pso.Bytes(), pse.Bytes()
+		if perr != nil {
+			if ee, ok := perr.(*exec.ExitError); ok {
+				out.PeerExit = ee.ExitCode()
+			} else {
+				harnessPanic("wait peer %v", perr)
+			}
+		}
+	}
+	var mainEnded atomic.Bool
+	gateDone := make(chan struct{})
+	if sc.Peer != nil {
+		go func() {
+			defer close(gateDone)
+			// blocks until the first process parks at the gate (or until the driver opens the other end after its exit)
+			g, err := os.OpenFile(gatePath, os.O_WRONLY, 0)
+			if err != nil {
+				harnessPanic("open gate %v", err)
+			}
+			if !mainEnded.Load() {
+				runPeer("at-gate")
+			}
+			_ = g.Close() // end of file on the pipe: the first process goes on
+		}()
+	} else {
+		close(gateDone)
+	}
 	wd := w.Watchdog
 	if wd == 0 {
 		wd = 20 * time.Second
@@ -340,6 +406,20 @@ func (w *World) Run(sc *Scenario, o RunOpts) *Outcome {
 		out.TimedOut = true
 		_ = syscall.Kill(-cmd.Process.Pid, syscall.SIGKILL)
 		werr = <-done
+	}
+	if sc.Peer != nil {
+		mainEnded.Store(true)
+		if out.PeerRan == "" {
+			// the first process ended without parking: release the gate keeper, run the peer now
+			if r, err := os.OpenFile(gatePath, os.O_RDONLY|syscall.O_NONBLOCK, 0); err == nil {
+				<-gateDone
+				_ = r.Close()
+			}
+		}
+		<-gateDone
+		if out.PeerRan == "" {
+			runPeer("after-exit")
+		}
 	}
 	for _, p := range fifos {
 		// release a feeder that is still waiting for a reader (yq never opened the pipe)
